@@ -23,11 +23,13 @@ from vcore import Failure
 
 PROP = "C04"
 RULE = (
-    "two families, distinct by canonical hash: (1) structure — sheets of question/group/repeat rows of every simple type of the "
-    "regenerated type table, selects (+or_other spellings), count helpers, externals inside repeats, disabled/blank rows, depth to "
-    "5 (quick) / 8 (thorough); (2) attributes — every parameterised type x appearance x body::x/rows/autoplay columns x valid and "
-    "(15% of sheets) invalid parameter cells x label/hint/neither/media x calculation x trigger, groups/repeats with "
-    "appearance/intent/body::x/jr:count, unlabelled sections of invisible rows, empty sections; non-trivial = accepted and "
+    "two streams, distinct by canonical hash: (1) structure — sheets of question/group/repeat rows of every simple type of the "
+    "regenerated type table, selects (+or_other spellings), count helpers, externals inside repeats, blank rows, depth to 5 (quick) / "
+    "8 (thorough); (2) attributes — every parameterised type x appearance x body::x/rows/autoplay columns x valid and (15% of sheets) "
+    "invalid parameter cells x label/hint/neither/media x calculation x trigger, groups/repeats with appearance/intent/body::x and "
+    "count cells of all shapes (constant, expression, bare reference, reference-prefixed expression, function call), table-list "
+    "groups, unlabelled sections of invisible rows, empty sections; on 25-35% of the sheets rows marked disabled of every kind "
+    "(questions, selects, audit, begin/end, rows that would be rejected) and falsy marks on active rows; non-trivial = accepted and "
     "containing a group/repeat or a control with attributes"
 )
 
